@@ -122,8 +122,8 @@ impl RuleState {
         }
         self.pending = keep;
         due.sort_by_key(|e| (e.0, e.1));
-        for (_, _, dir, seg) in due {
-            self.diag.deliver(dir, &seg);
+        for (_, _q, dir, seg) in due {
+            self.diag.deliver(dir, &seg, _q);
         }
     }
 }
@@ -248,6 +248,8 @@ pub fn run(d: &E2e) -> E2eOut {
                         Transport::Tcp(s) => Some(s.clone()),
                         _ => None,
                     };
+                    rs.seq += 1;
+                    let order = rs.seq;
                     if let Some(sg) = &seg {
                         rs.diag.emit(dir, sg);
                     }
@@ -264,14 +266,12 @@ pub fn run(d: &E2e) -> E2eOut {
                         *s.delayed.entry(k.to_string()).or_default() += 1;
                         s.max_delay_ms = s.max_delay_ms.max(ms);
                         if let Some(sg) = seg {
-                            rs.seq += 1;
-                            let q = rs.seq;
-                            rs.pending.push((now_ms + ms as u64, q, dir, sg));
+                            rs.pending.push((now_ms + ms as u64, order, dir, sg));
                         }
                         Verdict::Deliver(Duration::from_millis(ms as u64))
                     } else {
                         if let Some(sg) = &seg {
-                            rs.diag.deliver(dir, sg);
+                            rs.diag.deliver(dir, sg, order);
                         }
                         Verdict::Pass
                     }
